@@ -3,6 +3,7 @@ well-typed program families and single-fault mutation operators (C03)."""
 import copy
 import json
 import random
+import re
 
 from . import progs as P
 from .progs import *  # noqa: F401,F403
@@ -143,16 +144,23 @@ def _conv(n):
 def types_json(prog):
     fns = {}
     for name, f in prog["fns"].items():
-        if f.get("sps"):
-            raise ValueError("singleton parameters are not modelled by HmsTypes")
-        fns[name] = {"ps": f["ps"], "pts": [parse_type(t) for t in f["pts"]], "ret": parse_type(f["ret"]), "body": _conv(f["body"])}
-    globs = []
+        fns[name] = {"ps": f["ps"], "pts": [parse_type(t) for t in f["pts"]], "ret": parse_type(f["ret"]), "body": _conv(f["body"]),
+                     "sps": [list(x) for x in f.get("sps", [])], "event": bool(f.get("event"))}
+    globs, sings = [], []
     for g in prog["globals"]:
         if "decl" in g:
-            raise ValueError("singletons are not modelled by HmsTypes")
+            sings.append({"n": g["x"], "t": parse_type(g["decl"])})
+            continue
         globs.append({"x": g["x"], "e": _conv(g["e"]), "t": parse_type(g["t"]) if g.get("t") else NIL})
+    imports = {"trig": [], "templ": []}
+    for line in prog.get("imports", ()):
+        m = re.fullmatch(r"import (trigger|templ) (\w+) from (\w+);", line.strip())
+        if not m:
+            raise ValueError("import form not modelled by HmsTypes: %r" % line)
+        imports["trig" if m.group(1) == "trigger" else "templ"].append(m.group(2))
+    impls = [{"templ": im["templ"], "caps": im["caps"] or [], "sing": im["sing"], "methods": list(im["methods"])} for im in prog.get("impls", ())]
     return json.dumps({"id": prog["id"], "fns": fns, "globals": globs, "dups": [n for n, _ in prog.get("dupfns", ())],
-                       "needmain": True})
+                       "needmain": True, "sings": sings, "imports": imports, "impls": impls})
 
 
 # ---- AST walking -----------------------------------------------------------------------------------
@@ -389,6 +397,102 @@ def mutants(prog, rnd, per_op):
             else:
                 n["op"] = rnd.choice(["-=", "%=", "+=", "|=", "**=", "<<="])
         emit(m, "operator")
+    # M16 impl blocks and M17 trigger statements
+    for k, im in enumerate(prog.get("impls", ())):
+        def impl_mut(how, k=k):
+            def m(q):
+                im = q["impls"][k]
+                meth = im["methods"][0]
+                f = q["fns"][meth]
+                if how == "drop-method":
+                    im["methods"].remove(meth)
+                elif how == "extra-method":
+                    q["fns"]["extra_m"] = Fn([], Block([]), sps=[("self", im["sing"])])
+                    im["methods"].append("extra_m")
+                elif how == "param-name":
+                    old = f["ps"][0]
+                    f["ps"][0] = old + "_x"
+                    for n in nodes(f["body"]):
+                        if n.get("k") == "var" and n.get("x") == old:
+                            n["x"] = old + "_x"
+                elif how == "param-type":
+                    f["pts"][0] = "str" if f["pts"][0] != "str" else "int"
+                    f["body"] = Block([], B(True)) if f["ret"] == "bool" else Block([])
+                elif how == "param-count":
+                    f["ps"].append("more")
+                    f["pts"].append("int")
+                elif how == "ret":
+                    f["ret"] = "int"
+                    f["body"] = Block([], I(1))
+                elif how == "no-extract":
+                    f["sps"] = []
+                    f["body"] = Block([], B(True)) if f["ret"] == "bool" else Block([])
+                elif how == "cap-unknown":
+                    im["caps"].append("warp")
+                elif how == "cap-conflict":
+                    other = "temperature" if "light" in im["caps"] else "light"
+                    im["caps"].append(other)
+                    name = "set_temp" if other == "temperature" else "dim"
+                    q["fns"][name] = (Fn(["celsius"], Block([]), "null", ["float"], sps=[("self", im["sing"])]) if other == "temperature"
+                                      else Fn(["percent"], Block([], B(True)), "bool", ["int"], sps=[("self", im["sing"])]))
+                    im["methods"].append(name)
+                elif how == "no-caps":
+                    im["caps"] = None
+                elif how == "templ-not-imported":
+                    q["imports"] = [l for l in q["imports"] if "templ" not in l]
+                elif how == "sing-undeclared":
+                    im["sing"] = "$Nowhere"
+                elif how == "event-modifier":
+                    f["event"] = True
+            return m
+        for how in ("drop-method", "extra-method", "param-name", "param-type", "param-count", "ret", "no-extract", "cap-unknown", "cap-conflict",
+                    "no-caps", "templ-not-imported", "sing-undeclared", "event-modifier"):
+            emit(impl_mut(how), "impl-" + how)
+    trigs = [j for j, n in enumerate(nodes([prog["fns"][f]["body"] for f in fnames])) if n.get("k") == "trigger"]
+    for j in trigs[:per_op]:
+        def trig_mut(how, j=j):
+            def m(q):
+                n = nodes([q["fns"][f]["body"] for f in fnames])[j]
+                cbf = q["fns"].get(n["cb"])
+                if how == "cb-not-event":
+                    cbf["event"] = False
+                elif how == "cb-param-type":
+                    cbf["pts"][0] = "str"
+                elif how == "cb-arity":
+                    cbf["ps"].append("more")
+                    cbf["pts"].append("int")
+                elif how == "cb-ret":
+                    cbf["ret"] = "int"
+                    cbf["body"]["e"] = I(1)
+                elif how == "cb-unknown":
+                    n["cb"] = "no_such_callback"
+                elif how == "trigger-unknown":
+                    n["ev"] = "hourly"
+                elif how == "trigger-not-imported":
+                    q["imports"] = [l for l in q["imports"] if "trigger" not in l]
+                elif how == "arg-type":
+                    n["args"][0] = S("soon")
+                elif how == "arg-arity":
+                    n["args"].append(I(1))
+                elif how == "cb-param-name":
+                    old = cbf["ps"][0]
+                    cbf["ps"][0] = "renamed"
+                    for x in nodes(cbf["body"]):
+                        if x.get("k") == "var" and x.get("x") == old:
+                            x["x"] = "renamed"
+                elif how == "self":
+                    owner = [f for f in fnames if any(x is n for x in nodes(q["fns"][f]["body"]))][0]
+                    if q["fns"][owner]["ps"] != ["elapsed"]:
+                        q["fns"][owner] = Fn(["elapsed"], q["fns"][owner]["body"], event=True)
+                        for x in nodes(q["fns"][owner]["body"]):
+                            if x.get("k") == "var" and x.get("x") not in ("elapsed",):
+                                x.clear()
+                                x.update(I(1))
+                    n["cb"] = owner
+            return m
+        for how in ("cb-not-event", "cb-param-type", "cb-arity", "cb-ret", "cb-unknown", "trigger-unknown", "trigger-not-imported", "arg-type", "arg-arity",
+                    "cb-param-name", "self"):
+            emit(trig_mut(how), "trigger-" + how)
     # M13 call something that is no function / index something that is no container
     lets = [j for j, n in enumerate(nodes([prog["fns"][f]["body"] for f in fnames])) if n.get("k") == "var"]
     for j in (lets if len(lets) <= per_op // 2 + 1 else rnd.sample(lets, per_op // 2 + 1)):
@@ -513,6 +617,25 @@ def typing_programs():
          "g": Fn(["x"], Block([Loop(Block([Expr(If(Bin("<", V("x"), I(0)), Block([Expr(Call("throw", S("neg")))]))),
                                             Expr(If(Bin("==", V("x"), I(0)), Block([Expr(Block([Ret(S("zero"))]))]))), Expr(Asg(V("x"), I(1), "-="))]))]), "str"),
          "main": Fn([], Block([Print(Call("f", I(3)), Call("g", I(2)))]))})
+    # impl blocks against the host's template FooFeature (capability light requires dim(percent: int) -> bool,
+    # temperature requires set_temp(celsius: float), the two exclude each other) and trigger statements
+    dev = ("$Device", "{ is_online: bool, current_brightness: int }", Obj(is_online=B(False), current_brightness=I(0)))
+    dim = Fn(["percent"], Block([Expr(If(Bin("==", Mem(V("self"), "current_brightness"), V("percent")), Block([Ret(B(False))]))),
+                                 Expr(Asg(Mem(V("self"), "current_brightness"), V("percent")))], B(True)), "bool", ["int"], sps=[("self", "$Device")])
+    set_temp = Fn(["celsius"], Block([Print(S("temp"), V("celsius"), Mem(V("self"), "is_online"))]), "null", ["float"], sps=[("self", "$Device")])
+    progs.append(Program("ty_impl_light", {"dim": dim, "main": Fn([], Block([Print(Call("dim", I(42)), Call("dim", I(42)), Mem(V("$Device"), "current_brightness"))]))},
+                         sings=[dev], imports=["import templ FooFeature from templates;"],
+                         impls=[{"templ": "FooFeature", "caps": ["light"], "sing": "$Device", "methods": ["dim"]}],
+                         feats={"family": "typing", "template": "impl_light"}))
+    progs.append(Program("ty_impl_temperature", {"set_temp": set_temp, "main": Fn([], Block([Expr(Call("set_temp", F(43, 1)))]))},
+                         sings=[dev], imports=["import templ FooFeature from templates;"],
+                         impls=[{"templ": "FooFeature", "caps": ["temperature"], "sing": "$Device", "methods": ["set_temp"]}],
+                         feats={"family": "typing", "template": "impl_temperature"}))
+    cb = Fn(["elapsed"], Block([Print(S("cb"), V("elapsed"))]), event=True)
+    progs.append(Program("ty_trigger", {"cb": cb, "other": Fn(["e"], Block([Print(V("e"))]), event=True),
+                                        "arm": Fn(["n"], Block([Trigger("cb", "minute", V("n")), Trigger("other", "minute", Bin("+", V("n"), I(1)))])),
+                                        "main": Fn([], Block([Expr(Call("arm", I(5))), Trigger("cb", "minute", I(1))]))},
+                         imports=["import trigger minute from triggers;"], feats={"family": "typing", "template": "trigger", "vm_only": True}))
     add("globals", {"bump": Fn([], Block([Expr(Asg(V("cnt"), I(1), "+=")), Expr(MCall(V("names"), "push", S("x")))]), "null"),
                     "main": Fn([], Block([Expr(Call("bump")), Print(V("cnt"), V("names"), Mem(V("conf"), "depth"), V("ratio"), V("limit"))]))},
         globs=[("cnt", I(0)), ("names", List(S("a"))), ("conf", Obj(depth=I(2), tag=S("t"))), ("ratio", Bin("/", F(1, 0), F(2, 0))), ("limit", Un("-", I(5)))])
